@@ -24,6 +24,7 @@ import (
 	"strings"
 
 	"gorm.io/gorm"
+	"gorm.io/gorm/clause"
 )
 
 type C03KBody struct {
@@ -621,6 +622,8 @@ func c03KeyedSuite(r *Result, rng *rand.Rand, tier string) {
 
 func init() {
 	register("C03", c03KeyedSuite)
+	register("C03", c03DestKeySuite)
+	replayers["C03/destkey"] = func(r *Result, input json.RawMessage) { r.Note("destkey replays are correspondence-only") }
 	replayers["C03/keyed"] = func(r *Result, input json.RawMessage) {
 		var in c03KInput
 		if json.Unmarshal(input, &in) != nil {
@@ -631,6 +634,122 @@ func init() {
 				bads = bads[:8]
 			}
 			r.Violate(Violation{Kind: "e2e", Suite: "keyed", Input: in, Observed: bads})
+		}
+	}
+}
+
+// ---- correspondence `destkey`: the conditions the real BuildQuerySQL derives from a destination carrying key parts
+// (DryRun statement, clause WHERE) vs Model.DestKey.destKeyConds.  Values travel as numbers: integers as themselves,
+// strings as 1 + their index in c03KStrs, the zero value as 0. ----
+
+type c03KDestKeyInput struct {
+	Shape    string          `json:"shape"`
+	Finisher string          `json:"finisher"`
+	Key      [][]interface{} `json:"key"` // [column, value code] per member of Schema.PrimaryFields
+}
+
+func c03KCode(v reflect.Value) (int, bool) {
+	switch v.Kind() {
+	case reflect.String:
+		if v.String() == "" {
+			return 0, true
+		}
+		for i, s := range c03KStrs {
+			if s == v.String() {
+				return i + 1, true
+			}
+		}
+		return 0, false
+	case reflect.Int, reflect.Int8, reflect.Int16, reflect.Int32, reflect.Int64:
+		return int(v.Int()), v.Int() >= 0
+	case reflect.Uint, reflect.Uint8, reflect.Uint16, reflect.Uint32, reflect.Uint64:
+		return int(v.Uint()), true
+	}
+	return 0, false
+}
+
+func c03DestKeySuite(r *Result, rng *rand.Rand, tier string) {
+	n := 400
+	if tier == "thorough" {
+		n = 5000
+	}
+	db, sqlDB := c03Open(true, &gorm.Config{NowFunc: fixedNowFunc})
+	defer sqlDB.Close()
+	dry := db.Session(&gorm.Session{DryRun: true})
+	shapes := c03KShapes()
+	var ops [][]interface{}
+	var ins []c03KDestKeyInput
+	var reals []interface{}
+	for i := 0; i < n && !expired(); i++ {
+		sh := shapes[i%len(shapes)]
+		typ := reflect.TypeOf(sh.Proto)
+		stmt := &gorm.Statement{DB: db}
+		if err := stmt.Parse(reflect.New(typ).Interface()); err != nil {
+			continue
+		}
+		dest := reflect.New(typ)
+		in := c03KDestKeyInput{Shape: sh.Name, Finisher: []string{"First", "Take", "Last", "Find"}[rng.Intn(4)]}
+		for _, pf := range stmt.Schema.PrimaryFields {
+			f := dest.Elem().FieldByIndex(pf.StructField.Index)
+			if rng.Intn(3) != 0 {
+				f.Set(c03KMember(rng, f.Type(), 3))
+			}
+			code, _ := c03KCode(f)
+			in.Key = append(in.Key, []interface{}{pf.DBName, code})
+		}
+		// non-key fields the destination happens to hold never become conditions
+		if rng.Intn(2) == 0 {
+			c03KBodyOf(dest.Elem()).Set(reflect.ValueOf(c03KBodyGen(rng, i)))
+		}
+		var res *gorm.DB
+		switch in.Finisher {
+		case "First":
+			res = dry.First(dest.Interface())
+		case "Take":
+			res = dry.Take(dest.Interface())
+		case "Last":
+			res = dry.Last(dest.Interface())
+		default:
+			res = dry.Find(dest.Interface())
+		}
+		real := []interface{}{}
+		if c, ok := res.Statement.Clauses["WHERE"]; ok {
+			if w, ok := c.Expression.(clause.Where); ok {
+				for _, e := range w.Exprs {
+					eq, ok := e.(clause.Eq)
+					col, ok2 := eq.Column.(clause.Column)
+					if !ok || !ok2 {
+						real = append(real, []interface{}{fmt.Sprintf("?%T", e), 0})
+						continue
+					}
+					code, okc := c03KCode(reflect.ValueOf(eq.Value))
+					if !okc {
+						real = append(real, []interface{}{col.Name, fmt.Sprintf("?%v", eq.Value)})
+						continue
+					}
+					real = append(real, []interface{}{col.Name, code})
+				}
+			} else {
+				real = append(real, []interface{}{fmt.Sprintf("?%T", c.Expression), 0})
+			}
+		}
+		ops = append(ops, []interface{}{"c03.destkey", in.Key})
+		ins = append(ins, in)
+		reals = append(reals, real)
+		r.H("destkey.shape", sh.Name)
+		r.H("destkey.conds", fmt.Sprintf("%d of %d parts", len(real), len(in.Key)))
+	}
+	outs, err := AskLean(ops)
+	if err != nil {
+		r.Violate(Violation{Kind: "correspondence", Suite: "destkey", Note: "lean driver: " + err.Error()})
+		return
+	}
+	for i := range ops {
+		r.Case("destkey", canon(ins[i]), len(ins[i].Key) > 1)
+		r.CorrCompared++
+		if canon(reals[i]) != canonRaw(outs[i]) {
+			r.Violate(Violation{Kind: "correspondence", Suite: "destkey", Input: ins[i], Observed: reals[i], Expected: json.RawMessage(outs[i]),
+				Note: "WHERE conditions of a query whose destination carries key parts (DryRun; callbacks/query.go BuildQuerySQL) differ from Model.DestKey.destKeyConds"})
 		}
 	}
 }
